@@ -787,6 +787,16 @@ tokenize_rule (const DBusString *rule_text,
       ++i;
     }
 
+  /* Silently ignoring the rest of the rule would make it match more
+   * messages than its text says */
+  _dbus_string_skip_blank (rule_text, pos, &pos);
+  if (pos < _dbus_string_get_length (rule_text))
+    {
+      dbus_set_error (error, DBUS_ERROR_MATCH_RULE_INVALID,
+                      "Match rule has more than %d keys", MAX_RULE_TOKENS);
+      goto out;
+    }
+
   retval = TRUE;
   
  out:
